@@ -89,6 +89,14 @@ func genC14(t *simrt.Tape, tier string) Scenario {
 		}
 	}
 	nc := 1 + t.Choose(maxC)
+	if t.Bool(1, 6) {
+		// a crowd: more callers than the target's request buffer (5), often all of them at the
+		// hand-over before the target has been started
+		nc, maxS = 6+t.Choose(3), 2
+		if !sc.StartVal && sc.Restart == "" && t.Bool(1, 2) {
+			sc.LateStart = 20 + t.Choose(30)
+		}
+	}
 	for i := 0; i < nc; i++ {
 		c := c14Caller{Kind: []string{"cor", "cor", "do"}[t.Choose(3)]}
 		n := 1 + t.Choose(maxS)
